@@ -69,7 +69,7 @@ DEG = math.pi / 180
 def angle_pool(rng, limit_deg=None):
     """helix angles around the limits"""
     vals = [0.0, 5.0, 10.0, 15.0, 15.999999, 16.0, 16.000001, 24.9, 25.0, 25.1, 34.999, 35.0, 35.001, 44.9999, 45.0, 45.0001, 60.0,
-            89.0, 89.9999999, 90.0, 90.0000001, 91.0, 120.0, 180.0]
+            89.0, 89.9999999, 90.0, 90.0000001, 91.0, 120.0, 180.0, 269.0, 270.0, 285.0, 300.0, 359.0, 360.0, 400.0, 449.0, 720.0]
     if limit_deg is not None and rng.random() < 0.6:
         vals = [limit_deg, limit_deg * (1 - 1e-12), limit_deg * (1 + 1e-12), limit_deg - 1e-9, limit_deg + 1e-9, limit_deg - 1, limit_deg + 1, limit_deg / 2]
     d = rng.choice(vals)
